@@ -86,9 +86,7 @@ def check_miter(case):
         raise Violation('inputs', f'miter has {miter.input_size} inputs, left circuit has {n}')
     if miter.output_size != 1:
         raise Violation('outputs', f'miter has {miter.output_size} outputs')
-    prefix = (case['names'][0] if case['names'] else 'circuit1') + '@'
-    if list(miter.inputs) != [prefix + x for x in L['inputs']]:
-        raise Violation('inputs', f'miter inputs {miter.inputs} are not the left inputs {L["inputs"]} in order')
+    # (the order of the miter inputs is checked semantically below: input k of the miter is fed with left input k)
     tl, tr = refsem.out_tables(L), refsem.out_tables(R)
     diff = 0
     for a, b in zip(tl, tr):
